@@ -1,7 +1,9 @@
 import Reduino.Driver.Lang
 import Reduino.Lang.Types
 import Reduino.Lang.TypesTree
-/- `ty|run|(p (as x e) …)|all` or `…|0,2,1` (indices of the statements to execute, in order) -/
+/- `ty|run|(p (as x e) …)|all` or `…|0,2,1` (indices of the statements to execute, in order).
+   Expressions: `(i n) (f hex) (b T|F) (s hex) (v x) (neg a) (not a) (add|sub|mul|div a b) (lt|le|eq a b) (and|or a b) (ite c a b)`
+   and the builtin calls `(abs a) (min a b) (max a b) (toint a) (tofloat a) (tobool a)`. -/
 namespace Reduino.Driver
 open Reduino Reduino.Lang.Ty2
 
@@ -24,6 +26,12 @@ partial def toTE : SExp → Option (E Float)
   | .list [.atom "and", a, b] => do some (.and (← toTE a) (← toTE b))
   | .list [.atom "or", a, b] => do some (.or (← toTE a) (← toTE b))
   | .list [.atom "ite", c, a, b] => do some (.ite (← toTE c) (← toTE a) (← toTE b))
+  | .list [.atom "abs", a] => do some (.abs (← toTE a))
+  | .list [.atom "min", a, b] => do some (.min (← toTE a) (← toTE b))
+  | .list [.atom "max", a, b] => do some (.max (← toTE a) (← toTE b))
+  | .list [.atom "toint", a] => do some (.toInt (← toTE a))
+  | .list [.atom "tofloat", a] => do some (.toFloat (← toTE a))
+  | .list [.atom "tobool", a] => do some (.toBool (← toTE a))
   | _ => none
 
 def toTProg : SExp → Option (List (Stmt Float))
